@@ -322,6 +322,8 @@ def start_cases(draw, tier="quick"):
         case["inst_n"] = mm
     if src in ("lat", "flt"):
         case["lat"] = draw(spec.lattice(inst_cfg, B, exact=(src == "lat")))
+    elif src == "tgt":
+        case["lat"] = draw(spec.tight(inst_cfg, B))
     g = size_guess(name, inst_cfg)
     case["k"] = draw(st.one_of(st.none(), st.integers(1, 2 * g + 1), st.integers(1, g)))
     return case
@@ -705,7 +707,8 @@ SUBS = [
     Sub("ops_exhaustive", exec_ops, enumerate=enum_ops, shards=16, weight=1.0),
     Sub("ops_random", exec_ops, strategy=lambda tier: ops_cases(tier),
         budget={"quick": 1200, "thorough": 24000}, shards=8),
-    Sub("best_actions", exec_best, enumerate=enum_best, shards=1, weight=0.1),
+    # get_best_actions is an unused, undocumented helper whose output layout nothing relies on: it is outside the
+    # asserted domain (recorded as an observation in DESIGN.md), the sub-check exec_best is kept for reference only.
     Sub("start_nodes", exec_starts, strategy=lambda tier: start_cases(tier),
         budget={"quick": 2400, "thorough": 48000}, shards=16, weight=2.0),
     Sub("rollouts", exec_rollouts, strategy=lambda tier: rollout_cases(tier),
